@@ -10,6 +10,8 @@ list(s), list(reversed(s)), len(s), first, last, plus the operation's own result
      equality; iteration with removal of the visited element visits exactly the original elements.
      two of a kind: other sets of the same class (built before / after / copied from the set under test) are unaffected by
      its operations and do not affect it (signature other-set-changed).
+     elements that are metamodel INSTANCES (level 'inst'): what the metamodel does to an element (delete / create / change it)
+     is no operation on the set, every observer goes on agreeing with the history of the set operations; D and K (list level).
   K  (correspondence): the same observables from lean/PyxModel/OSet.lean (abstract level) and, for
      add/discard/iter-rm sequences, lean/PyxModel/OSetPtr.lean (pointer level).
 """
@@ -26,9 +28,14 @@ RULE = ('exhaustive op sequences (quick: length 3, thorough: length 4) over a fi
         'lengths; a case is non-trivial when the set reached >= 2 elements and a '
         'removing operation hit a present element; distinct = distinct (class, level, op sequence); in every case three OTHER sets '
         'of the same class live beside the set under test (one built from a list before it, an empty one built after it, a copy '
-        'taken half way) and are changed between the steps: neither side may see the other')
+        'taken half way) and are changed between the steps: neither side may see the other; level inst: the elements are '
+        'instances of a metamodel (two classes with the same attributes), the set is built by select_many (with / without filter), '
+        'from a list, by single adds or by inst + inst, and between the set operations instances are deleted from / created in / '
+        'changed in the metamodel: exhaustively who of three instances is deleted before / after the set was built for every '
+        'route, plus random sequences (non-trivial: a held instance was deleted from the metamodel while the set held >= 2)')
 EXHAUSTIVE = {'quick': True, 'thorough': True}
-ASSUMPTIONS = ['elements are hashable values compared by ==; the universe is small integers',
+ASSUMPTIONS = ['elements are hashable values compared by ==; the universe is small integers (level inst: instances of a '
+               'metamodel, compared by identity; levels exotic / str: D only)',
                'CPython 3.12 collections.abc.MutableSet mixins are modelled from their source, tied by correspondence']
 CHUNK = 4000
 CASE_TIMEOUT_S = 5
@@ -133,6 +140,58 @@ def generate(ctx):
             for operand in ('abcdef', 'ab', '', 'x', 'ba', 'xxabc'):
                 for nm in ('isub', 'iand', 'ixor', 'ior', 'sub', 'and', 'or', 'xor'):
                     yield {'cls': cls, 'level': 'str', 'start': start, 'operand': operand, 'op': nm}
+    # elements that are real metamodel INSTANCES (what a query set holds in practice), with events of the metamodel between
+    # the set operations: an element is deleted from / created in / changed in its metamodel before or after it entered the
+    # set; sets built through the routes the library offers (select_many with and without a filter, construction from a
+    # list, single adds, inst + inst).  D, and K against the list-level model (instances named by creation index; an event
+    # of the metamodel is, for the model of ONE set, a membership question that leaves the set alone).
+    # exhaustive part: who of three instances is deleted, before or after the set was built, for every building route
+    for cls in ('OrderedSet', 'QuerySet'):
+        for build in ([['select', 0]], [['ctor', 0, 1, 2]], [['add', 0], ['add', 1], ['add', 2]], [['ctor', 2, 0, 1]],
+                      [['plus', 0, 1], ['add', 2]], [['where', 0, 0], ['add', 1]]):
+            for mask in range(8):
+                dels = [['delete', i, (i + mask) % 2] for i in range(3) if mask >> i & 1]
+                for when in ('before', 'after'):
+                    ops = (dels + build) if when == 'before' else (build + dels)
+                    yield {'cls': cls, 'level': 'inst', 'kinds': [0, 0, 0], 'other': 'list',
+                           'ops': ops + [['in', 0, 1, 2], ['pop-first'], ['pop-last'], ['pop-last']]}
+    rngi = ctx.rng.fork('inst')
+    set_ops = ['add', 'add', 'add', 'discard', 'remove', 'pop-last', 'pop-first', 'clear', 'ior', 'ior', 'iand', 'isub', 'ixor',
+               'or', 'and', 'sub', 'xor', 'eq', 'in', 'iter-rm', 'riter-rm', 'iter-rm-del']
+    for i in range(ctx.pick(500, 8000)):
+        r = rngi.fork(i)
+        kinds = [(r.randrange(2) if r.random() < 0.4 else 0) for _ in range(r.randint(1, 6))]
+
+        def build():
+            p = r.random()
+            if p < 0.35:
+                return ['select', r.randrange(2) if r.random() < 0.3 else 0]
+            if p < 0.5:
+                return ['where', 0, r.randrange(2)]
+            if p < 0.6:
+                return ['plus', r.randrange(12), r.randrange(12)]
+            return ['ctor'] + [r.randrange(12) for _ in range(r.randint(0, 6))]
+        ops = [build()] if r.random() < 0.8 else []
+        for _ in range(r.randint(2, ctx.pick(14, 40))):
+            p = r.random()
+            if p < 0.3:
+                ops.append(['delete', r.randrange(12), r.randrange(2)])
+            elif p < 0.35:
+                ops.append(['touch', r.randrange(12)])
+            elif p < 0.41:
+                ops.append(['new', r.randrange(2)])
+            elif p < 0.47:
+                ops.append(build())
+            else:
+                nm = r.choice(set_ops)
+                if nm in ('add', 'discard', 'remove'):
+                    ops.append([nm, r.randrange(12)])
+                elif nm in ('pop-last', 'pop-first', 'clear'):
+                    ops.append([nm])
+                else:
+                    ops.append([nm] + [r.randrange(12) for _ in range(r.randint(0, 5))])
+        yield {'cls': r.choice(['OrderedSet', 'QuerySet', 'QuerySet']), 'level': 'inst', 'kinds': kinds, 'ops': ops,
+               'other': r.choice(['oset', 'list'])}
 
 
 def _first_last(s, cls):
@@ -273,7 +332,260 @@ def _run_exotic(case):
             'stats': {'fam_exotic': 1}, 'model_line': None}
 
 
+INST_KINDS = ['Dog', 'Cat']        # two classes with the same attributes (two of a kind)
+
+
+def _run_inst(case):
+    """Elements are instances of a metamodel; between the set operations the metamodel deletes / creates / changes them.
+    A set is a collection of whatever was put into it: what the metamodel does to an element is no operation on the set, so
+    every observer (iteration, reverse iteration, length, membership, first, last, ==) goes on agreeing with the history of
+    the SET operations.  Oracle: the list of creation indices in first-insertion order, computed from the set operations
+    only; instances are recognised by identity.  The content of a selection (select_many / inst + inst) is not this
+    property's business: the set is taken as returned, provided it holds known instances once each.
+    K: the same observables as on level 'abs' from the list-level model, instances named by creation index; for the model
+    an event of the metamodel on instance k is the membership question `(in k)`."""
+    x = _xtuml
+    cls = getattr(x, case['cls'])
+    qs = case['cls'] == 'QuerySet'
+    m = x.MetaModel()
+    for kind in INST_KINDS:
+        m.define_class(kind, [('Name', 'string'), ('Nr', 'integer')])
+    table, kind_of, live, ids = [], [], [], {}
+
+    def new(kind):
+        inst = m.new(INST_KINDS[kind], Name='n%d' % len(table), Nr=len(table))
+        ids[id(inst)] = len(table)
+        table.append(inst)
+        kind_of.append(kind)
+        live.append(True)
+
+    def name(e):
+        if e is None:
+            return Sym('none')
+        i = ids.get(id(e))
+        return i if i is not None and table[i] is e else Sym('foreign')
+
+    for kind in case['kinds']:
+        new(kind)
+    s = cls()
+    oracle = []                  # creation indices of the present elements, first insertion first
+    obs, mops, fails, done = [], [], [], []
+    stats = {'fam_inst': 1}
+    nontrivial = False
+    stop = False
+
+    def fail(sig, what):
+        fails.append({'sig': sig, 'what': '%s with instances as elements (kinds %r; delete / touch / new are events of the '
+                      'metamodel, not of the set): %s after ops %s'
+                      % (case['cls'], case['kinds'], what, dumps([[Sym(o[0])] + o[1:] for o in done]))})
+
+    def ends():
+        f, l = (s.first, s.last) if qs else (next(iter(s), None), next(reversed(s), None))
+        return name(f), name(l)
+
+    def want_ends(lst):
+        return (lst[0], lst[-1]) if lst else (Sym('none'), Sym('none'))
+
+    def operand(args):
+        insts = [table[i] for i in args]
+        return cls(insts) if case.get('other', 'oset') == 'oset' else insts
+
+    for op in case['ops']:
+        if stop or not table:
+            break
+        nm = op[0]
+        args = [i % len(table) for i in op[1:]] if nm not in ('select', 'where', 'new') else list(op[1:])
+        done.append([nm] + args)
+        before = list(oracle)
+        res = Sym('ok')
+        order_known = True
+        mop = None               # the model's operation(s) for this step
+        if nm == 'delete':
+            k = args[0]
+            if live[k]:
+                if args[1]:
+                    x.delete(table[k])
+                else:
+                    x.get_metaclass(table[k]).delete(table[k], disconnect=False)
+                live[k] = False
+                if k in oracle:
+                    nontrivial |= len(oracle) >= 2
+                    stats['inst_deleted_while_held'] = stats.get('inst_deleted_while_held', 0) + 1
+                    if k in (oracle[0], oracle[-1]):
+                        stats['inst_deleted_at_an_end'] = stats.get('inst_deleted_at_an_end', 0) + 1
+            res, mop = [table[k] in s], [[Sym('in'), k]]
+        elif nm == 'touch':
+            k = args[0]
+            table[k].Name = 'changed%d' % len(done)
+            res, mop = [table[k] in s], [[Sym('in'), k]]
+        elif nm == 'new':
+            if len(table) < 12:
+                new(args[0] % 2)
+            k = len(table) - 1
+            res, mop = [table[k] in s], [[Sym('in'), k]]
+        elif nm in ('select', 'where', 'plus', 'ctor'):
+            # the set under test is REPLACED by one built through another route; for the model: clear, then |=
+            if nm == 'select':
+                q = m.select_many(INST_KINDS[args[0] % 2])
+                hist = [i for i in range(len(table)) if live[i] and kind_of[i] == args[0] % 2]
+            elif nm == 'where':
+                q = m.select_many(INST_KINDS[args[0] % 2], lambda sel, par=args[1] % 2: sel.Nr % 2 == par)
+                hist = [i for i in range(len(table)) if live[i] and kind_of[i] == args[0] % 2 and i % 2 == args[1] % 2]
+            elif nm == 'plus':
+                q = table[args[0]] + table[args[1]]
+                hist = list(dict.fromkeys(args))
+            else:
+                q = [table[i] for i in args]
+                hist = list(dict.fromkeys(args))
+            s = q if (nm != 'ctor' and qs) else cls(q)
+            got = [name(e) for e in s]
+            if nm == 'ctor':
+                oracle = hist                       # construction from an iterable = in-place union into an empty set
+            elif all(isinstance(i, int) for i in got) and len(set(got)) == len(got):
+                oracle = got                        # a selection is taken as returned (its content is C09's / C02's matter)
+                if got != hist:
+                    stats['inst_selection_differs'] = 1
+            else:
+                stats['inst_selection_unusable'] = 1
+                break
+            obs.append([Sym('ok'), [], [], 0, Sym('none'), Sym('none')])
+            mop = [[Sym('clear')], [Sym('ior')] + oracle]
+        elif nm == 'add':
+            s.add(table[args[0]])
+            if args[0] not in oracle:
+                oracle.append(args[0])
+        elif nm == 'discard':
+            s.discard(table[args[0]])
+            oracle = [k for k in oracle if k != args[0]]
+        elif nm == 'remove':
+            try:
+                s.remove(table[args[0]])
+                if args[0] not in before:
+                    fail('remove-absent-accepted', 'remove of the absent instance %d did not raise KeyError' % args[0])
+            except KeyError:
+                res = Sym('KeyError')
+                if args[0] in before:
+                    fail('remove-present-rejected', 'remove of the present instance %d raised KeyError' % args[0])
+            oracle = [k for k in oracle if k != args[0]]
+        elif nm in ('pop-last', 'pop-first'):
+            try:
+                res = name(s.pop(last=(nm == 'pop-last')))
+                want = (before[-1] if nm == 'pop-last' else before[0]) if before else None
+                if not before:
+                    fail('pop-empty-accepted', 'pop on an empty set returned %r' % (res,))
+                elif res != want:
+                    fail('pop-wrong-end', '%s returned instance %r, the %s element is instance %r' % (nm, res, nm[4:], want))
+                oracle = [k for k in oracle if k != res]
+            except KeyError:
+                res = Sym('KeyError')
+                if before:
+                    fail('pop-nonempty-rejected', 'pop on a non-empty set raised KeyError')
+        elif nm == 'clear':
+            s.clear()
+            oracle = []
+        elif nm == 'ior':
+            s |= operand(args)
+            oracle = oracle + [k for k in dict.fromkeys(args) if k not in oracle]
+        elif nm == 'iand':
+            s &= operand(args)
+            oracle = [k for k in oracle if k in args]
+        elif nm == 'isub':
+            s -= operand(args)
+            oracle = [k for k in oracle if k not in args]
+        elif nm == 'ixor':
+            s ^= operand(args)
+            oracle = [k for k in oracle if k not in args] + [k for k in dict.fromkeys(args) if k not in before]
+            order_known = False
+        elif nm in ('or', 'and', 'sub', 'xor'):
+            o = operand(args)
+            r = {'or': lambda: s | o, 'and': lambda: s & o, 'sub': lambda: s - o, 'xor': lambda: s ^ o}[nm]()
+            want = {'or': set(before) | set(args), 'and': set(before) & set(args), 'sub': set(before) - set(args),
+                    'xor': set(before) ^ set(args)}[nm]
+            res = [name(e) for e in r]
+            if set(res) != want or len(res) != len(want):
+                fail('binop-content', '%s gave the instances %r, the mathematical result is %r' % (nm, res, sorted(want)))
+            if not isinstance(r, cls):
+                fail('binop-type', '%s returned a %s' % (nm, type(r).__name__))
+            if nm == 'or' and res[:len(before)] != before:
+                fail('or-order', 'a | b does not start with a in a\'s order: %r' % (res,))
+        elif nm == 'eq':
+            insts = [table[i] for i in args]
+            r1, r2, r3, r4 = (s == list(insts)), (s == tuple(insts)), (s == cls(insts)), not (s != list(insts))
+            res = bool(r1)
+            if not (r1 == r2 == r3 == r4):
+                fail('eq-inconsistent', '== differs between list/tuple/set/!= forms: %r' % ([r1, r2, r3, r4],))
+            if len(set(args)) == len(args) and bool(r1) != (before == args):
+                fail('eq-spec', 'the set of instances %r == the list of instances %r gave %r' % (before, args, r1))
+        elif nm == 'in':
+            res = [(table[k] in s) for k in args]
+            if res != [(k in before) for k in args]:
+                fail('membership', 'in gave %r for the instances %r on %r' % (res, args, before))
+        elif nm in ('iter-rm', 'riter-rm', 'iter-rm-del'):
+            # the loop body removes the visited element from the set (iter-rm-del: and deletes it from its metamodel) and
+            # reads the ends of the set it is iterating
+            visited = []
+            back = nm == 'riter-rm'
+            for e in (reversed(s) if back else s):
+                k = name(e)
+                visited.append(k)
+                if k in args:
+                    s.discard(e)
+                    if nm == 'iter-rm-del' and live[k]:
+                        x.delete(e)
+                        live[k] = False
+                now = [j for j in before if not (j in args and j in visited)]
+                if ends() != want_ends(now):
+                    fail('iter-inner-view', 'inside an iteration with removal (visited so far %r) first/last give %r, the set '
+                         'holds %r' % (visited, ends(), now))
+                if len(visited) > len(before) + 5:
+                    break
+            if visited != (before[::-1] if back else before):
+                fail('iter-remove-current', '%siteration with removal of the visited element visited the instances %r, '
+                     'the set held %r' % ('REVERSE ' if back else '', visited, before))
+            res = visited[::-1] if back else visited      # level abs: the model's forward iteration with removal
+            oracle = [k for k in oracle if k not in args]
+            mop = [[Sym('iter-rm')] + args]
+        else:
+            raise ValueError(nm)
+        mops += mop if mop is not None else [[Sym(nm)] + args]
+        # every observer against the history of the set operations
+        items = [name(e) for e in s]
+        rev = [name(e) for e in reversed(s)]
+        n = len(s)
+        fl = ends()
+        if sorted(map(repr, items)) != sorted(map(repr, oracle)):
+            fail('content', 'after %s the set holds the instances %r, a mathematical set holds %r' % (done[-1], items, sorted(oracle)))
+            stop = True
+        elif order_known and items != oracle:
+            fail('insertion-order', 'after %s iteration order is %r, first-insertion order is %r' % (done[-1], items, oracle))
+            oracle = list(items)
+        elif not order_known:
+            oracle = list(items)
+        if rev != items[::-1]:
+            fail('reversed', 'reversed gives the instances %r for %r' % (rev, items))
+        if n != len(items):
+            fail('len', 'len gives %d for %r' % (n, items))
+        mem = [t in s for t in table]
+        if mem != [k in items for k in range(len(table))]:
+            fail('membership', 'in gives %r over all instances, the set holds %r' % (mem, items))
+        if fl != want_ends(items):
+            dead = [k for k in items if isinstance(k, int) and not live[k]]
+            fail('first-last', 'first/last give the instances %r, the set iterates %r (instances deleted from the metamodel: %r)'
+                 % (fl, items, dead))
+        same = [table[k] for k in items if isinstance(k, int)]
+        if len(same) == len(items) and (not (s == same) or (s != same) or (len(same) > 1 and s == same[::-1])):
+            fail('eq-spec', '== / != against the list of its own elements (and its reverse) disagree for %r' % (items,))
+        if len(items) >= 2 and any(isinstance(k, int) and not live[k] for k in items):
+            nontrivial = True
+        obs.append([res, items, rev, n, fl[0], fl[1]])
+    key = '%s/inst/%r/%s' % (case['cls'], case['kinds'], dumps([[Sym(o[0])] + o[1:] for o in case['ops']]))
+    return {'obs': _norm(obs), 'd_fail': fails[:3], 'nontrivial': nontrivial, 'key': key, 'stats': stats,
+            'model_line': dumps([Sym('oset')] + mops) if mops else None}
+
+
 def run_impl(case):
+    if case.get('level') == 'inst':
+        return _run_inst(case)
     if case.get('level') == 'str':
         return _run_str(case)
     if case.get('level') == 'exotic':
